@@ -12,6 +12,8 @@ import tlcdump  # noqa: E402
 import hashlib  # noqa: E402
 import json  # noqa: E402
 
+NOT_APPLICABLE = {}
+
 COMMON_ASSUMPTIONS = [
     'TLC explores the stated bounded configurations exhaustively; beyond them cases are sampled (seeded).',
     'The executor (harness/exec) logs faithfully what the public API returned; it contains no oracle.',
@@ -178,6 +180,9 @@ DEC_FAULTS = {'kind': 'mc', 'tree': True, 'name': 'faults', 'module': 'MC_Link',
 DEC_ANY = {'kind': 'mc', 'tree': True, 'name': 'anyhistory', 'module': 'MC_DecAny', 'comp': 'dec', 'trace': 'TraceDec',
            'cfg': {'quick': 'MC_DecAny_quick.cfg', 'thorough': 'MC_DecAny_thorough.cfg'},
            'extra': {'solo': True}, 'invariants': ['InvC17', 'InvC18', 'InvC02']}
+DEC_MCFRAMES = {'kind': 'mc', 'name': 'frames', 'module': 'MC_Frames', 'comp': 'dec', 'trace': 'TraceDec',
+                'cfg': {'quick': 'MC_Frames_quick.cfg', 'thorough': 'MC_Frames_thorough.cfg'},
+                'invariants': ['InvC04', 'InvSupersede', 'InvC02']}
 DEC_STREAMS = {'kind': 'gen', 'name': 'streams', 'gen': dec_streams, 'comp': 'dec', 'trace': 'TraceDec'}
 DEC_RFAULTS = {'kind': 'gen', 'name': 'randomfaults', 'gen': dec_faults, 'comp': 'dec', 'trace': 'TraceDec'}
 DEC_RANY = {'kind': 'gen', 'name': 'randomhistory', 'gen': dec_anyhist, 'comp': 'dec', 'trace': 'TraceDec'}
@@ -237,8 +242,10 @@ PROPS = {
                     'frame\'s endpoint, non-CMP buffers leave the pending table untouched. Non-trivial = distinct episodes of at '
                     'least two decode calls.',
             'assumptions': COMMON_ASSUMPTIONS},
-    'C04': {'level': 'model_checking', 'stages': [DEC_ANY, DEC_FRAMES], 'nontrivial_case': nt_dec_any,
-            'rule': 'frames of 0..5 unsegmented messages of every payload kind with arbitrary field values, consistent and '
+    'C04': {'level': 'model_checking', 'stages': [DEC_MCFRAMES, DEC_FRAMES], 'nontrivial_case': nt_dec_any,
+            'rule': 'MC_Frames: every frame of 0..MaxMsgs messages from a catalogue of 25 payloads (all kinds, consistent / '
+                    'inconsistent / bus-error), every truncation and several zero paddings, with and without a pending reassembly; '
+                    'each replayed on the real decoder; plus random frames of 0..5 unsegmented messages of every payload kind with arbitrary field values, consistent and '
                     'deliberately inconsistent inner lengths, bus-error flags, truncated at any offset and zero padded, decoded by '
                     'a decoder with history; monitor DecodedMatchesWire: packets = messages found by the independent walker of '
                     'spec/Frames.tla, field by field from the layout offsets. Non-trivial = distinct episodes of at least two decode calls.',
